@@ -5,12 +5,16 @@ import Props.C12
 #print axioms SpyneModel.Props.C12.alone_wsdl_is_the_sequential_document
 #print axioms SpyneModel.Props.C12.alone_rpc_is_the_sequential_response
 #print axioms SpyneModel.Props.C12.wsdl_once_and_whole
+#print axioms SpyneModel.Props.C12.wsdl_without_failures
+#print axioms SpyneModel.Props.C12.wsdl_failed_build_is_retried
 #print axioms SpyneModel.Props.C12.wsdl_cache_never_reverts
 #print axioms SpyneModel.Props.C12.wsdl_mutual_exclusion
 #print axioms SpyneModel.Props.C12.wsdl_no_deadlock
 #print axioms SpyneModel.Props.C12.wsdl_progress
 #print axioms SpyneModel.Props.C12.wsdl_scheduler_runs_are_covered
 #print axioms SpyneModel.Props.C12.pinned_handler_loses_the_document
+#print axioms SpyneModel.Props.C12.lock_released_only_on_success_deadlocks
+#print axioms SpyneModel.Props.C12.builder_must_reset_its_dicts
 #print axioms SpyneModel.Props.C12.requests_with_safe_operations_do_not_interfere
 #print axioms SpyneModel.Props.C12.every_modelled_operation_is_safe
 #print axioms SpyneModel.Props.C12.cache_transparent
